@@ -17,6 +17,7 @@ From V Require Import Gen.Tagfilter Model.Tagfilter Spec.GfmFilter.
 From V Require Import Spec.Shape.
 From V Require Import Spec.SpSpec.
 From V Require Import Gen.Nodes Gen.TableRows Spec.Valid.
+From V Require Import Gen.CmGen Model.Cm Spec.CmSpec.
 Extraction Language OCaml.
 Set Extraction KeepSingleton.
 
@@ -182,4 +183,11 @@ Extraction "model.ml"
   Valid.try_opening_row_cells
   Valid.try_opening_header_cells
   Valid.row_result
+  Cm.format_document
+  Cm.shortest_unused_sequence
+  Cm.longest_char_sequence
+  Cm.scheme_matches
+  CmSpec.cm_shape
+  CmSpec.cm_no_ol_overflow
+  CmSpec.has_run
 .
